@@ -65,6 +65,45 @@ Proof.
   split; rewrite map_map; reflexivity.
 Qed.
 
+(** move_internal(pos): the volume stack is unchanged, the level-0 position is [pos], every
+    deeper position is the parent's position transformed down through the daughter
+    transform of the parent's volume, the surface and the cached step are cleared *)
+Lemma set_poss_spec (xf : nat -> xform R) ls : forall l pos,
+  map (fun x => (ls_univ x, ls_vol x, ls_dir x)) (set_poss xf ls l pos)
+  = map (fun x => (ls_univ x, ls_vol x, ls_dir x)) ls
+  /\ (forall k, (S k < length ls)%nat ->
+       ls_pos (nth (S k) (set_poss xf ls l pos) dummy_ls)
+       = x_down (xf (l + k)%nat) (ls_pos (nth k (set_poss xf ls l pos) dummy_ls)))
+  /\ (ls <> [] -> ls_pos (nth 0 (set_poss xf ls l pos) dummy_ls) = pos).
+Proof.
+  induction ls as [|x r IH]; intros l pos; cbn [set_poss map length].
+  - repeat split; [intros k Hk; cbn in Hk; lia|congruence].
+  - destruct (IH (S l) (x_down (xf l) pos)) as [Hm [Hc H0]]. repeat split.
+    + cbn. f_equal. exact Hm.
+    + intros k Hk. destruct k as [|k].
+      * cbn [nth ls_pos]. rewrite Nat.add_0_r. destruct r as [|y r']; [cbn in Hk; lia|].
+        apply H0. congruence.
+      * cbn [nth]. replace (l + S k)%nat with (S l + k)%nat by lia. apply Hc. cbn in Hk. lia.
+Qed.
+
+Theorem move_internal_pos_spec (g : geometry R) st pos :
+  st_levels st <> [] ->
+  let st' := move_internal_pos g st pos in
+  map (fun l => (ls_univ l, ls_vol l, ls_dir l)) (st_levels st')
+  = map (fun l => (ls_univ l, ls_vol l, ls_dir l)) (st_levels st)
+  /\ ls_pos (get_level st' 0) = pos
+  /\ (forall k, (S k <= level st)%nat ->
+       ls_pos (get_level st' (S k)) = x_down (level_xform g st k) (ls_pos (get_level st' k)))
+  /\ st_surf st' = None /\ st_next_step st' = 0 /\ st_next_surf st' = None
+  /\ st_reentrant st' = st_reentrant st.
+Proof.
+  intros Hne st'. unfold st', move_internal_pos, get_level, level. cbn [st_levels st_surf st_next_step st_next_surf st_reentrant].
+  destruct (set_poss_spec (level_xform g st) (st_levels st) 0 pos) as [Hm [Hc H0]].
+  repeat split; try reflexivity; try assumption.
+  - apply H0. exact Hne.
+  - intros k Hk. apply (Hc k). destruct (st_levels st); [congruence|]. cbn in *. lia.
+Qed.
+
 (** a re-entrant flag makes find_next_step return {0, boundary} without side effect
     and cross_boundary a no-op that only resets the flag *)
 Theorem reentrant_protocol tol (g : geometry R) st maxd :
